@@ -318,6 +318,16 @@ def assemble_item(d, info, src, srcfile_label, log):
             raise Undecided(f"{d.path}: desugar(mut_self) but the receiver is not `mut self`")
         recv = ps[0]["span"]
         add(recv[0], recv[1], "mut self_: Self", "DESUGAR_MUT_SELF")
+    mut_self_let = False
+    if d.opt("desugar(mut_self_let)"):
+        # `fn f(mut self, ..) { body }` -> `fn f(self, ..) { let mut self_ = self; body[self := self_] }`: the function stays a
+        # method (extracted callers use method-call syntax), the mutable local is what `mut self` declares
+        ps = it.get("params", [])
+        if not ps or not ps[0]["self"] or not src[ps[0]["span"][0]:ps[0]["span"][1]].decode().replace(" ", "") == "mutself":
+            raise Undecided(f"{d.path}: desugar(mut_self_let) but the receiver is not `mut self`")
+        recv = ps[0]["span"]
+        add(recv[0], recv[1], "self", "DESUGAR_MUT_SELF")
+        mut_self_let = True
     for o in d.opts:
         if o.startswith("subst(") or o.startswith("optsubst("):
             # textual type substitution anywhere in the item (a generic instance replaced by its prelude model);
@@ -436,6 +446,8 @@ def assemble_item(d, info, src, srcfile_label, log):
             add(a, a, f"({rn}: ", "INSERT_SPEC")
             add(b, b, ")", "INSERT_SPEC")
         bo, bc = it["body_open"], it["body_close"]
+        if mut_self_let:
+            add(bo + 1, bo + 1, " let mut self_ = self;", "DESUGAR_MUT_SELF")
         if d.opt("nobody"):
             if bo >= 0:
                 add(bo, end, ";", "NOBODY")
@@ -743,7 +755,7 @@ def assemble(unit_dir, mutate=None, canary=False):
         mono_names = set()
         for d in ds:
             mono_names.update(parse_mono(d.optarg("mono")).keys())
-            if d.opt("desugar(mut_self)"):
+            if d.opt("desugar(mut_self)") or d.opt("desugar(mut_self_let)"):
                 mono_names.add("self")
         paths = []
         for d in ds:
